@@ -199,7 +199,7 @@ impl Property for C32 {
         "wire-format clauses only quantify over non-negative durations that fit the format (negative durations hit a documented assert!)",
     ];
     const QUICK_CASES: u32 = 4_000_000;
-    const THOROUGH_CASES: u32 = 60_000_000;
+    const THOROUGH_CASES: u32 = 120_000_000;
 
     fn strategy(_tier: Tier) -> BoxedStrategy<Case> {
         let p128 = || u128_interesting().prop_map(split);
